@@ -6,7 +6,11 @@ package main
 //
 //	tx-log Append of a record         -> c03 val ; c03 pre            (answer: the new precommitted id)
 //	implicit fsync inside an op       -> c03 autosync tx|cl           (buffer-full autoSync / chunk rotation; emitted BEFORE the op)
-//	explicit tx-log Sync (= sync())   -> [c03 allow t] ; c03 syncbegin ; c03 synctx
+//	first value-log Flush/Sync of a   -> [c03 allow t] ; c03 syncbegin   (AT ITS REAL POSITION in the trace: a tx record appended between
+//	  durability round                                                  the value-log fsyncs and the tx-log fsync of one round is a
+//	                                                                    `c03 pre` the model answers with "disabled": in the model
+//	                                                                    performPrecommit and sync() exclude each other)
+//	explicit tx-log Sync (= sync())   -> ([c03 allow t] ; c03 syncbegin when the round has no value-log part: embedded values) ; c03 synctx
 //	commit-log SetOffset/Append/Sync  -> c03 closet ; c03 clapp (answer: number of entries) ; c03 clsync ; c03 ack (answer: committed id)
 //	harness mark "ack id"             -> c03 isacked id               (answer: true)
 //	crash image                       -> c03 crash 0 kt kc 0 0 tc     (answer: "committed,precommitted" | err:class)
@@ -39,6 +43,7 @@ type c03Trace struct {
 	clTotal   int      // model: commit-log entries (durable + volatile)
 	clDurable int
 	committed int
+	roundOpen bool // syncbegin emitted, synctx not yet (the value-log part of a durability round is under way)
 	inSync    bool // between closet and clsync
 	clapped   bool
 	alhs      map[[32]byte]bool
@@ -104,30 +109,28 @@ func (t *c03Trace) step(r *hx.Result, run *c03Run, k int) {
 			r.Corr("c03 pre", fmt.Sprint(id))
 			r.Count("trace.pre")
 		case op.Kind == crashfs.KSync:
-			// sync(): look ahead for the commit-log entries this sync() appends (same critical section)
-			n := 0
-			for j := k + 1; j < len(run.Log); j++ {
-				o := run.Log[j]
-				if o.File == "tx" || (o.File == "commit" && o.Kind == crashfs.KSync) {
-					break
-				}
-				if o.File == "commit" && o.Kind == crashfs.KAppend {
-					n += o.Len / c03CLogEntry
-				}
-			}
-			if len(t.recs) == t.committed {
-				r.Count("trace.sync-with-nothing-precommitted")
+			if !t.roundOpen && !t.beginRound(r, run, k) {
 				return
 			}
-			if t.cfg.Allowance && n > 0 {
-				r.Corr(fmt.Sprintf("c03 allow %d", t.committed+n), fmt.Sprint(t.committed+n))
-			}
-			r.Corr("c03 syncbegin", "ok")
 			r.Corr("c03 synctx", "ok")
 			r.Count("trace.sync")
+			t.roundOpen = false
 			t.txDurable = len(t.recs)
 		}
 	case "commit":
+		t.stepCommit(r, run, k, op, implicitSync)
+	default:
+		if strings.HasPrefix(op.File, "val_") && (op.Kind == crashfs.KFlush || op.Kind == crashfs.KSync) && !t.roundOpen {
+			// value logs are flushed+fsynced only by sync(): this is where the durability round really begins
+			if t.beginRound(r, run, k) {
+				r.Count("trace.round-begins-at-value-log-flush")
+			}
+		}
+	}
+}
+
+func (t *c03Trace) stepCommit(r *hx.Result, run *c03Run, k int, op crashfs.Op, implicitSync bool) {
+	{
 		// an implicit fsync of the commit log can only happen in the middle of the batch the model appends in ONE step
 		// (clapp): it is not replayed, the model then holds FEWER entries for durable than the implementation, which is
 		// sound because kc is counted from the image
@@ -165,6 +168,35 @@ func (t *c03Trace) step(r *hx.Result, run *c03Run, k int) {
 			}
 		}
 	}
+}
+
+// beginRound: the first storage op of a durability round (sync()) is op k.  Looks ahead for the commit-log entries this round
+// appends (same critical section), emits the external allowance it implies and `syncbegin`.  false: nothing precommitted.
+func (t *c03Trace) beginRound(r *hx.Result, run *c03Run, k int) bool {
+	j := k
+	for j < len(run.Log) && !(run.Log[j].File == "tx" && run.Log[j].Kind == crashfs.KSync) {
+		j++
+	}
+	n := 0
+	for j++; j < len(run.Log); j++ {
+		o := run.Log[j]
+		if o.File == "tx" || (o.File == "commit" && o.Kind == crashfs.KSync) {
+			break
+		}
+		if o.File == "commit" && o.Kind == crashfs.KAppend {
+			n += o.Len / c03CLogEntry
+		}
+	}
+	if len(t.recs) == t.committed {
+		r.Count("trace.sync-with-nothing-precommitted")
+		return false
+	}
+	if t.cfg.Allowance && n > 0 {
+		r.Corr(fmt.Sprintf("c03 allow %d", t.committed+n), fmt.Sprint(t.committed+n))
+	}
+	r.Corr("c03 syncbegin", "ok")
+	t.roundOpen = true
+	return true
 }
 
 func c03ErrClass(e string) string {
